@@ -229,17 +229,37 @@ def _cseg_layout(repo, col):
     for qn in ("_encode_channel", "decode_chunk_into", "_decode_channel_into"):
         fn = repo.func(mod, qn)
         defs = local_defs(fn.node)
+        from .rules_axis import AxisChecker
+        from .report import Collector as _Col
+        ax = AxisChecker(fn, _Col("-"))
         for g in ("gx", "gy", "gz"):
             ds = def_values(m, fn.node, g, defs)
             c = _canon(ds[0]) if ds else None
-            # ceil(<array>.shape[k] / <block>[j]) with j the axis of g
-            j = "xyz".index(g[1])
-            ok = bool(c) and re.match(
-                r"^CEILDIV\(.*shape.*, [A-Za-z_][A-Za-z_0-9.]*\[%d\]\)$" % j,
-                c) is not None
-            col.add(rule + ".grid", fn, "%s = %s" % (g, c), ok,
+            # ceil(<array>.shape[k] / <block>[j]) with j the axis of g in
+            # the order of the block vector (x, y, z as declared in the info,
+            # or array order when the codec is handed the reversed tuple)
+            mt = re.match(r"^CEILDIV\(.*shape.*, ([A-Za-z_][A-Za-z_0-9.]*)"
+                          r"\[(\d)\]\)$", c) if c else None
+            order = None
+            if mt:
+                try:
+                    order = ax.vec_order(ast.parse(mt.group(1),
+                                                   mode="eval").body)
+                except SyntaxError:
+                    order = None
+            if mt and order in ("XYZ", "ZYX"):
+                ok = order[int(mt.group(2))] == g[1].upper()
+                und = False
+            elif mt:
+                # a block vector whose order is not known: the x-y-z order
+                # of the info is the reference, the reverse is undecided
+                ok = int(mt.group(2)) == "xyz".index(g[1])
+                und = not ok and int(mt.group(2)) == 2 - "xyz".index(g[1])
+            else:
+                ok, und = False, not ds or c is None
+            col.add(rule + ".grid", fn, "%s = %s" % (g, c), ok or und,
                     "" if ok else "grid size %s is not ceil(extent / block "
-                    "size)" % g, undecided=not ds or c is None)
+                    "size)" % g, undecided=und and not ok)
     # 7. offsets are in 32-bit words: encoder len(buf)//4, decoder 4*word
     for fn, pats in ((repo.func(mod, "encode_chunk"), ["len(buf) // 4"]),
                      (enc, ["len(buf) // 4"]),
